@@ -8,6 +8,7 @@ import (
 	"log/slog"
 	"net"
 	"net/netip"
+	"strings"
 	"sync"
 	"time"
 
@@ -41,7 +42,8 @@ type c11Peer struct {
 	ke      *peer.NTSKEServer
 	srv     *peer.NTPServer
 	issued  map[int]int
-	level   int // pool level the client must have according to what was issued and what got lost
+	level   int      // pool level the client must have according to what was issued and what got lost
+	pool    []string // model of the client's FIFO cookie pool (tags), exact as long as cookies are used in order
 	seen    map[string]bool
 	drop    func(n int) bool // loss script: drop the response to the n-th request of this run?
 	nreq    int
@@ -100,11 +102,29 @@ func (p *c11Peer) handle(s *peer.NTPServer, dg []byte, from netip.AddrPort, rx t
 	if keys == nil {
 		return
 	}
-	if conn != p.keConns { // first request after a (re-)key exchange: the pool was refilled with 8 cookies
+	if conn != p.keConns && idx < 8 { // first request after a (re-)key exchange: the pool was refilled with 8 cookies
 		p.keConns = conn
-		p.level = 8
-		rq.LevelBefore = 8
+		p.pool = nil
+		for i := 0; i < 8; i++ {
+			p.pool = append(p.pool, fmt.Sprintf("%d.%d", conn, i))
+		}
 	}
+	// the pool is a queue: cookies in front of this one were spent by calls that ended before their
+	// request reached the wire (a deadline that expired during the key exchange, for instance)
+	at := -1
+	for i, t := range p.pool {
+		if t == rq.Cookie {
+			at = i
+		}
+	}
+	if at < 0 {
+		p.problem = append(p.problem, "cookie "+rq.Cookie+" is not in the pool the server side accounts for (sent twice, or never issued)")
+		return
+	}
+	p.pool = p.pool[at:]
+	p.level = len(p.pool)
+	rq.LevelBefore = p.level
+	p.pool = p.pool[1:]
 	tag := string(cookie[:16])
 	if p.seen[tag] {
 		p.problem = append(p.problem, "cookie "+rq.Cookie+" sent in two requests")
@@ -131,6 +151,7 @@ func (p *c11Peer) handle(s *peer.NTPServer, dg []byte, from netip.AddrPort, rx t
 	for i := 0; i < want; i++ {
 		p.issued[keys.ID]++
 		cs = append(cs, peer.TaggedCookie(keys.ID, 100+p.issued[keys.ID], c11CookieLen))
+		p.pool = append(p.pool, fmt.Sprintf("%d.%d", keys.ID, 100+p.issued[keys.ID]))
 	}
 	now := time.Now()
 	hdr := peer.NTPFields{LVM: 0x24, Stratum: 1, Poll: f.Poll, Precision: -30, Origin: f.Transmit, Receive: peer.ToNTP64(rx), Transmit: peer.ToNTP64(now)}.Bytes()
@@ -163,6 +184,7 @@ func c11ClientLeg(r *ev.Run) {
 	keAddr := netip.AddrPortFrom(srvIP, uint16(p.ke.L.Addr().(*net.TCPAddr).Port))
 	local := &net.UDPAddr{IP: cliIP.AsSlice()}
 	// one run = a fresh client driven through a loss pattern (true = response lost)
+	slow, total := 0, 0
 	run := func(id string, pattern []bool) {
 		if r.Only() != "" && r.Only() != id {
 			return
@@ -177,7 +199,7 @@ func c11ClientLeg(r *ev.Run) {
 		var outcome []string
 		minLevel := 8
 		for i := range pattern {
-			timeout := 400 * time.Millisecond
+			timeout := 1500 * time.Millisecond
 			if pattern[i] {
 				timeout = 60 * time.Millisecond // a lost response: the call can only time out
 			}
@@ -188,6 +210,7 @@ func c11ClientLeg(r *ev.Run) {
 			})
 			cancel()
 			r.Eval(1)
+			total++
 			p.mu.Lock()
 			lvl := p.level
 			p.mu.Unlock()
@@ -202,6 +225,13 @@ func c11ClientLeg(r *ev.Run) {
 				p.mu.Unlock()
 				r.Violation(fmt.Sprintf("ip-client(NTS)|panic while building or sending a request|pool-level=%d", lvl), id, w)
 				return
+			case err != nil && !pattern[i] && strings.Contains(err.Error(), "timeout"):
+				// a delivered exchange that still ran into its (generous) deadline: the machine is busy;
+				// counted, and too many of them make the run inconclusive
+				outcome = append(outcome, "timeout")
+				slow++
+				r.Class("pattern-abandoned(delivered exchange ran into its deadline)")
+				return // the client did not store that response's cookies: the pool model no longer applies
 			case err != nil:
 				outcome = append(outcome, "error")
 				if !pattern[i] {
@@ -274,6 +304,10 @@ func c11ClientLeg(r *ev.Run) {
 	}
 	p.srv.Close()
 	p.ke.Close()
+	r.Set("delivered_exchanges_that_timed_out", slow)
+	if slow*50 > total {
+		r.Inconclusive(fmt.Sprintf("%d of %d exchanges with a delivered response ran into the 1.5 s deadline (machine too busy)", slow, total))
+	}
 }
 
 // ---- leg B: the real server side
